@@ -129,6 +129,19 @@ MUTANTS = [
 ]
 
 
+# properties that MAY also report a mutant (collateral: the mutant breaks them too, or breaks so much that their replay corpus fails);
+# a report from a property in neither set counts as OVER-ALARM
+MAY = {
+    "incomplete-message-parsed": {"C01", "C06"},
+    "upgrade-tail-dropped-in-handle": {"C01", "C06"},
+    "frame-not-popped": {"C02", "C03"},
+}
+MUST_OVERRIDE = {
+    "incomplete-message-parsed": {"C02"},
+    "upgrade-tail-dropped-in-handle": {"C02"},
+}
+
+
 def run_one(job):
     name, scratch, prop, builddir = job
     env = dict(os.environ, VX_REPO=scratch, VX_BUILD=builddir, VX_EVIDENCE_DIR=os.path.join(builddir, "evidence"),
@@ -174,11 +187,13 @@ def main():
         with cf.ThreadPoolExecutor(max_workers=jobs_n) as ex:
             for name, prop, rc, lines in ex.map(run_one, jobs):
                 expect = [m[4] for m in MUTANTS if m[0] == name][0]
+                if name in MUST_OVERRIDE:
+                    expect = MUST_OVERRIDE[name]
                 want = expect is not None and prop in expect
                 status = "ok"
                 if want and rc != 1:
                     status = "SURVIVED"
-                elif (not want) and rc == 1 and expect is not None:
+                elif (not want) and rc == 1 and expect is not None and prop not in MAY.get(name, set()):
                     status = "OVER-ALARM"
                 elif expect is None:
                     status = "info:%d" % rc
